@@ -3,7 +3,7 @@
 From Coq Require Import ZArith String List Bool.
 From Grpchan Require Import lib.Cases lib.Hex.
 From Grpchan Require Export model.StreamSeq.
-From Grpchan Require corr.Stream.
+From Grpchan Require corr.Stream corr.HttpSched.
 Import ListNotations.
 Open Scope Z_scope.
 
@@ -19,6 +19,7 @@ Inductive case :=
 | Script (http : bool) (header_first : bool) (script : list hop) (code : Z) (o : sobs)
 | Single (http : bool) (script : list hop) (code : Z) (res : single) (tlr : md)
 | Lts (c : Stream.case)
+| HLts (c : HttpSched.case)        (* a schedule of the HTTP client stream against a scripted transport *)
 | Checked (kind : string) (id : Z) (ok : bool)   (* a comparison made on the Go side *)
 | UnaryStatus (http : bool) (code : Z) (msg_class : Z) (details : Z)
               (obs_code : Z) (msg_same details_same : bool) (hdr_ok tlr_ok : bool)
@@ -70,6 +71,7 @@ Definition check_case (k : case) : bool :=
               call fails with the library's own Internal error: the trailers are never read *)
            (if (2 <=? Z.of_nat (length (datas fs))) then true else md_eqb (v_tlr (client_view fs)) t)
   | Lts c => Stream.check_case c
+  | HLts c => HttpSched.check_case c
   | Checked _ _ ok => ok
   | UnaryStatus http code cls det oc ms ds h t =>
       (oc =? (if code =? 0 then 13 else code)) && ds && h && t &&
